@@ -14,7 +14,8 @@ open C21
 variable (cfg : Cfg) (p : Pool) (count : Nat) (excl : List Nat) (now : Int) (forkSort : Bool)
   (order : List Nat) (cur : Nat → Int)
 
-/-- **len_le_count** — at most the requested number of entries. -/
+/-- **len_le_count** — at most the requested number of entries (`0 < count`: `EventTxList` refuses
+`count ≤ 0` with ErrSize; internally `count = 0` means "all", used by `EventGetMempool`). -/
 theorem len_le_count (hc : 0 < count) (hnd : order.Nodup) (isAll : Bool) :
     (getTxList cfg p count excl isAll now forkSort order cur).length ≤ count := by
   unfold getTxList
@@ -95,20 +96,25 @@ theorem non_eth_keep_order (isAll : Bool) :
   rw [h1]
   exact (List.filter_sublist).trans (collect_sublist _ _ _ _)
 
-/-- **eth_consecutive** — after the fork, for every sender the returned nonce-sorted transactions
-carry the nonces `cur s, cur s + 1, cur s + 2, …` in that order. -/
-theorem eth_consecutive (hnd : order.Nodup) (isAll : Bool) (s : Nat) :
+/-- **eth_consecutive_partial** — hypotheses added to the property text: (1) `forkSort = true`, i.e.
+ForkCheckEthTxSort is active at the header's height (below it the code does not sort at all);
+(2) the class is `esort` = eth-signed AND NOT a para-chain executor (`sortEthSignTyTx` leaves
+eth-signed `user.p.` transactions in arrival order: the main chain cannot know their nonces).
+Then for every sender the returned transactions of that class carry the nonces
+`cur s, cur s + 1, cur s + 2, …` in that order.  Both hypotheses are necessary:
+`eth_consecutive_full_false_para`, `eth_consecutive_full_false_prefork`. -/
+theorem eth_consecutive_partial (hnd : order.Nodup) (isAll : Bool) (s : Nat) :
     consecFrom (cur s)
       (((getTxList cfg p count excl isAll now true order cur).filter (fun t => t.esort && t.snd == s)).map (·.nonce)) := by
   unfold getTxList
   simp only [if_true]
   exact sortEth_eth order hnd cur _ s
 
-/-- **eth_up_to_first_gap** — the chain of a sender is not cut short: the nonce following the last
+/-- **eth_up_to_first_gap_partial** (same two hypotheses as `eth_consecutive_partial`) — the chain of a sender is not cut short: the nonce following the last
 returned one is carried by none of that sender's collected transactions (so the sender's returned
 transactions are exactly the nonces `cur s, cur s + 1, …` up to the first gap).  `s ∈ order`: the
 Go map's keys are all eth senders of the collected list. -/
-theorem eth_up_to_first_gap (hnd : order.Nodup) (isAll : Bool) (s : Nat) (hs : s ∈ order) :
+theorem eth_up_to_first_gap_partial (hnd : order.Nodup) (isAll : Bool) (s : Nat) (hs : s ∈ order) :
     ∀ t ∈ collect (keeps cfg p excl isAll now) count p.q 0, t.esort = true → t.snd = s →
       t.nonce ≠ cur s +
         ((getTxList cfg p count excl isAll now true order cur).filter (fun t => t.esort && t.snd == s)).length := by
@@ -120,6 +126,44 @@ theorem eth_up_to_first_gap (hnd : order.Nodup) (isAll : Bool) (s : Nat) (hs : s
   apply chain_gap
   rw [List.mem_filter]
   exact ⟨ht, by simp [he, hsnd]⟩
+
+/-- The property text as written: for every sender, ALL its eth-signed returned transactions carry
+consecutive nonces from the current nonce — whatever the fork state and the executor. -/
+def EthFullStatement : Prop :=
+  ∀ (cfg : Cfg) (p : Pool) (count : Nat) (excl : List Nat) (now : Int) (forkSort : Bool) (order : List Nat)
+    (cur : Nat → Int), order.Nodup → ∀ s,
+    consecFrom (cur s)
+      (((getTxList cfg p count excl false now forkSort order cur).filter (fun t => t.eth && t.snd == s)).map (·.nonce))
+
+def wCfg : Cfg := ⟨8, 8, 8, 3, true⟩
+/-- eth-signed, para-chain executor (`esort = false`), sender 7, nonces 5 then 3 in arrival order -/
+def wPara : Pool :=
+  { Pool.empty 10 1000 with
+    q := [⟨⟨1, 7, 100, 100000, 0, [0], true, false, 5, 1⟩, 50⟩, ⟨⟨2, 7, 100, 100000, 0, [0], true, false, 3, 2⟩, 50⟩] }
+/-- eth-signed main-chain transactions, nonces 4 then 3 in arrival order -/
+def wPre : Pool :=
+  { Pool.empty 10 1000 with
+    q := [⟨⟨1, 7, 100, 100000, 0, [0], true, true, 4, 1⟩, 50⟩, ⟨⟨2, 7, 100, 100000, 0, [0], true, true, 3, 2⟩, 50⟩] }
+
+instance (n : Int) (l : List Int) : Decidable (consecFrom n l) := by
+  induction l generalizing n with
+  | nil => exact isTrue trivial
+  | cons x xs ih => unfold consecFrom; exact inferInstanceAs (Decidable (_ ∧ _))
+
+/-- eth-signed para-chain transactions are returned in arrival order (nonces 5, 3 with current nonce 3),
+also on the real code (finding `C23|sortEthSignTyTx|eth-signed-para-exec-not-nonce-ordered`). -/
+theorem eth_consecutive_full_false_para : ¬ EthFullStatement := by
+  intro h
+  have := h wCfg wPara 5 [] 100 true [7] (fun _ => 3) (by decide) 7
+  revert this
+  decide
+
+/-- below ForkCheckEthTxSort nothing is sorted (nonces 4, 3 returned in arrival order) -/
+theorem eth_consecutive_full_false_prefork : ¬ EthFullStatement := by
+  intro h
+  have := h wCfg wPre 5 [] 100 false [7] (fun _ => 3) (by decide) 7
+  revert this
+  decide
 
 /-! ### non-vacuity -/
 
